@@ -210,10 +210,29 @@ def make_fun(case):
 def run_case(case, ctx):
     import numdifftools as nd
     cls, method, n, order = case['cls'], case['method'], case['n'], case['order']
+    narrow = None
+    if case['shape'] and case['fseed'] % 7 == 4 and not _is_flat(case):
+        # the point in a narrow dtype, with values in the upper half of its range (2 * x does not fit the dtype): uint8, int8,
+        # int16
+        # (float16 / float32 points are not drawn: the library then works in that precision and "symmetric up to rounding" would have
+        # to be judged in it)
+        narrow = ['uint8', 'int8', 'int16'][(case['fseed'] // 7) % 3]
+        prng = np.random.default_rng(case['fseed'])
+        size_ = len(case['x'])
+        sgn = prng.choice([-1.0, 1.0], size=size_)
+        vals = {'uint8': prng.integers(130, 251, size=size_).astype(float),
+                'int8': sgn * prng.integers(70, 121, size=size_),
+                'int16': sgn * prng.integers(17000, 30001, size=size_),
+                'float16': sgn * prng.integers(33000, 60001, size=size_).astype(np.float16).astype(float),
+                'float32': np.array(case['x'], dtype=np.float32).astype(float)}[narrow]
+        case = dict(case, x=[float(v) for v in vals])
+        ctx.count('x_in_a_narrow_dtype:' + narrow)
     rec = Recorder(make_fun(case))
     if _is_flat(case):
         ctx.count('functions_even_about_x_or_constant')
     x = np.array(case['x'], dtype=float).reshape(case['shape']) if case['shape'] else float(case['x'][0])
+    if narrow:
+        x = x.astype(narrow)
     kw = dict(method=method)
     if cls == 'Derivative':
         kw.update(n=n, order=order)
